@@ -181,6 +181,11 @@ pub fn run(ctx: &Ctx, out: &mut Outcome, cfg: SimCfg, plan: &Plan, run_seed: u64
                 }
                 if plan.flood {
                     n = r.range(100, 450);
+                    // a third of the micro floods put far more than 256 (and sometimes more than 1024) tiny messages
+                    // of one channel into a single packet: per-packet message counts beyond one byte
+                    if micro && r.chance(1, 3) {
+                        n = r.range(600, 2400);
+                    }
                 }
                 for _ in 0..n {
                     if *per.get(&(c, d)).unwrap_or(&0) >= plan.max_msgs {
